@@ -13,7 +13,15 @@ design half   TLC explores spec/MCDebugger.tla:
                 * "cursor" model: streams of record kinds x command sequences
                   from every reachable cursor position, with the repaired flags
                   (FilterSound, FwdBackIdentity, NoPanic must hold) and as the
-                  code is (the violations TLC finds are PREDICTIONS)
+                  code is (the violations TLC finds are PREDICTIONS); jumps by
+                  transition id to records held, still to come or never coming
+                * "lookup" model: a store that GROWS between look-ups of the
+                  same key, the per-client id cache as a variable; a run with a
+                  cache that remembers misses must fail (sensitivity)
+                * "filter" model: every kind of record (auto x queued x canceled
+                  x check, executor accepted / canceled / missing, empty, health)
+                  x every set of filter states: the transcription of hFilterTx's
+                  else-if chain equals its declarative meaning
 binding half  harness/dbgdrv drives a REAL headless am-dbg (tcell simulation
               screen):
                 (a) real telemetry of generated machines (pkg/telemetry/dbg,
@@ -24,10 +32,14 @@ binding half  harness/dbgdrv drives a REAL headless am-dbg (tcell simulation
                     tracer (RecordFaithful); export -> import into a fresh
                     debugger (ExportImportIdentity)
                 (b) the pure look-up functions of server.Client over generated
-                    record lists (function level)
+                    record lists, and over one list that grows between look-ups
+                    of the same key (function level)
                 (c) TLC-generated behaviours (record kinds + Fwd/Back/ScrollToTx/
                     filter toggles/tail) replayed through the debugger machine's
                     states, Debugger.C compared after every step
+                (d) the filter matrix: a client that holds every kind of record,
+                    a walk of ToggleTool commands through every reachable set of
+                    filter states
               every run is logged as ndjson and validated by TLC against
               spec/TraceDebugger.tla: the property formulas are evaluated on
               the LOGGED values (verdict), the specification's own step on the
@@ -44,8 +56,8 @@ from common import *
 PROP = "C16"
 # the specification as the code is / with the three modelled defects repaired
 # the tree carries the NextBounded and ChecksInGroup repairs (fix: C16)
-CODE = dict(ChecksInGroup=True, Refilter=False, NextBounded=True)
-FIXED = dict(ChecksInGroup=True, Refilter=True, NextBounded=True)
+CODE = dict(ChecksInGroup=True, Refilter=False, NextBounded=True, CacheMisses=False)
+FIXED = dict(ChecksInGroup=True, Refilter=True, NextBounded=True, CacheMisses=False)
 GROUP_FILTERS = {"FilterAutoTx", "FilterCanceledTx", "FilterEmptyTx", "FilterHealth",
                  "FilterOutGroup", "FilterQueuedTx", "FilterAutoCanceledTx"}
 
@@ -55,18 +67,33 @@ MC_BASE = dict(Model="derive", NStates=2, MaxRecs=3, Deltas="<-D012", NonMono=Fa
 
 DERIVE_INV = ["Inv_DerivedConsistent", "Inv_LookupEqualsScan", "Inv_ModelMonotone"]
 CURSOR_INV = ["Inv_FilterSound", "Inv_FilteredSound", "Inv_FwdBackIdentity", "Inv_CursorRange",
-              "Inv_NoPanic"]
+              "Inv_NoPanic", "Inv_TxIndexEqualsScan", "Inv_CacheSound"]
+LOOKUP_INV = ["Inv_TxIndexEqualsScan", "Inv_CacheSound", "Inv_LookupEqualsScan"]
+FILTER_INV = ["Inv_FilterTxEqualsPass", "Inv_RefilteredExact"]
 
 
 def mc_plan(tier):
-    """(label, constants, invariants, expectation, timeout)"""
+    """-> derive, cursor, lookup, filter plans: (label, constants, timeout)"""
     d, c = [], []
+    if tier == "quick":
+        l = [("lookup: store grows, <=4 records, <=4 look-ups of ids held / to come / never coming",
+              dict(Model="lookup", MaxRecs=4, MaxCmds=4), 100)]
+        f = [("filter: every kind of record x every set of filters, <=2 records",
+              dict(Model="filter", MaxRecs=2), 100)]
+    else:
+        l = [("lookup: store grows, <=5 records, <=5 look-ups of ids held / to come / never coming",
+              dict(Model="lookup", MaxRecs=5, MaxCmds=5), 900)]
+        f = [("filter: every kind of record x every set of filters, <=3 records",
+              dict(Model="filter", MaxRecs=3), 900)]
     if tier == "quick":
         d += [("derive 2 states, <=3 records, deltas 0..2", dict(NStates=2, MaxRecs=3), 100),
               ("derive 2 states, <=4 records, deltas 0..1", dict(NStates=2, MaxRecs=4, Deltas="<-D01"), 100),
               ("derive 3 states, <=3 records, deltas 0..1", dict(NStates=3, MaxRecs=3, Deltas="<-D01"), 100)]
         c += [("cursor core kinds, <=3 records, <=3 commands",
-               dict(Model="cursor", MaxRecs=3, MaxCmds=3, Kinds="<-KindsCore", Tools="<-ToolsCore"), 100)]
+               dict(Model="cursor", MaxRecs=3, MaxCmds=3, Kinds="<-KindsCore", Tools="<-ToolsCore"), 100),
+              ("cursor queued/auto/canceled kinds and filters + jumps by transition id (held / to come), "
+               "<=3 records, <=3 commands",
+               dict(Model="cursor", MaxRecs=3, MaxCmds=3, Kinds="<-KindsQueue", Tools="<-ToolsQueueId"), 100)]
     else:
         d += [("derive 2 states, <=4 records, deltas 0..2", dict(NStates=2, MaxRecs=4), 900),
               ("derive 2 states, <=6 records, deltas 0..1", dict(NStates=2, MaxRecs=6, Deltas="<-D01"), 900),
@@ -75,8 +102,14 @@ def mc_plan(tier):
         c += [("cursor all kinds, <=4 records, <=4 commands, core tools",
                dict(Model="cursor", MaxRecs=4, MaxCmds=4, Kinds="<-KindsAll", Tools="<-ToolsCore"), 900),
               ("cursor core kinds, <=3 records, <=4 commands, all tools",
-               dict(Model="cursor", MaxRecs=3, MaxCmds=4, Kinds="<-KindsCore", Tools="<-ToolsAll"), 900)]
-    return d, c
+               dict(Model="cursor", MaxRecs=3, MaxCmds=4, Kinds="<-KindsCore", Tools="<-ToolsAll"), 900),
+              ("cursor queued/auto/canceled kinds and filters + jumps by transition id (held / to come), "
+               "<=4 records, <=4 commands",
+               dict(Model="cursor", MaxRecs=4, MaxCmds=4, Kinds="<-KindsQueue", Tools="<-ToolsQueueId"), 900),
+              ("cursor jumps by transition id (held / to come), <=4 records, <=5 commands",
+               dict(Model="cursor", MaxRecs=4, MaxCmds=5, Kinds="<-KindsId", Tools="<-ToolsId",
+                    InitF="<-InitFChecks"), 900)]
+    return d, c, l, f
 
 
 def tlc_mc(consts, invariants, timeout, workers=8):
@@ -85,10 +118,20 @@ def tlc_mc(consts, invariants, timeout, workers=8):
 
 
 def run_mc(tier, rep):
-    d, c = mc_plan(tier)
+    d, c, lk, fl = mc_plan(tier)
     jobs = []
     for label, over, to in d:
         jobs.append((label, dict(MC_BASE, **FIXED, **over), DERIVE_INV, "hold", to))
+    for label, over, to in lk:
+        jobs.append((label, dict(MC_BASE, **FIXED, **over), LOOKUP_INV, "hold", to))
+    if tier != "quick":
+        # (quick: the attack run of the binding half, which asks TLC for a miss / ingest / hit
+        # schedule of the model with such a cache, is the sensitivity run)
+        jobs.append(("lookup with a cache that REMEMBERS MISSES (sensitivity)",
+                     dict(MC_BASE, **dict(FIXED, CacheMisses=True), Model="lookup", MaxRecs=2, MaxCmds=2),
+                     ["Inv_TxIndexEqualsScan"], "violate", 100))
+    for label, over, to in fl:
+        jobs.append((label, dict(MC_BASE, **FIXED, **over), FILTER_INV, "hold", to))
     jobs.append(("derive NON-monotone streams (sensitivity)", dict(MC_BASE, **FIXED, NonMono=True, MaxRecs=3),
                  ["Inv_LookupEqualsScanAlways"], "violate", 100))
     for label, over, to in c:
@@ -130,19 +173,29 @@ def run_mc(tier, rep):
 # B2: TLC emits behaviours
 
 def emit_plan(tier, sd):
-    """(initf name, constants, timeout): every behaviour of the model of the code
-    within the constants, one shard of them chosen by the seed"""
+    """(label, initf name, constants, timeout): every behaviour of the model of the
+    code within the constants, one shard of them chosen by the seed"""
+    def sh(m):
+        return dict(ShardMod=m, ShardIdx=sd % m)
     if tier == "quick":
-        return [("default", dict(MaxRecs=3, MaxCmds=2, Kinds="<-KindsMin", Tools="<-ToolsMin",
-                                 InitF="<-InitFDefault", ShardMod=12, ShardIdx=sd % 12), 100),
-                ("checks", dict(MaxRecs=2, MaxCmds=3, Kinds="<-KindsCk", Tools="<-ToolsCk",
-                                InitF="<-InitFChecks", ShardMod=8, ShardIdx=sd % 8), 100)]
-    return [("default", dict(MaxRecs=3, MaxCmds=3, Kinds="<-KindsCore", Tools="<-ToolsMin",
-                             InitF="<-InitFDefault", ShardMod=64, ShardIdx=sd % 64), 900),
-            ("nogroup", dict(MaxRecs=3, MaxCmds=3, Kinds="<-KindsMin", Tools="<-ToolsCore",
-                             InitF="<-InitFNoGroup", ShardMod=32, ShardIdx=sd % 32), 900),
-            ("checks", dict(MaxRecs=3, MaxCmds=4, Kinds="<-KindsCk", Tools="<-ToolsCk",
-                            InitF="<-InitFChecks", ShardMod=64, ShardIdx=sd % 64), 900)]
+        return [("default", "default", dict(MaxRecs=3, MaxCmds=2, Kinds="<-KindsMin", Tools="<-ToolsMin",
+                                            InitF="<-InitFDefault", **sh(18)), 100),
+                ("checks", "checks", dict(MaxRecs=2, MaxCmds=3, Kinds="<-KindsCk", Tools="<-ToolsCk",
+                                          InitF="<-InitFChecks", **sh(8)), 100),
+                # the filters that interact on queued / auto / canceled records; jumps by
+                # transition id to records held / still to come
+                ("queue", "default", dict(MaxRecs=3, MaxCmds=2, Kinds="<-KindsQueue", Tools="<-ToolsQueueId",
+                                          InitF="<-InitFDefault", **sh(200)), 100)]
+    return [("default", "default", dict(MaxRecs=3, MaxCmds=3, Kinds="<-KindsCore", Tools="<-ToolsMin",
+                                        InitF="<-InitFDefault", **sh(64)), 900),
+            ("nogroup", "nogroup", dict(MaxRecs=3, MaxCmds=3, Kinds="<-KindsMin", Tools="<-ToolsCore",
+                                        InitF="<-InitFNoGroup", **sh(32)), 900),
+            ("checks", "checks", dict(MaxRecs=3, MaxCmds=4, Kinds="<-KindsCk", Tools="<-ToolsCk",
+                                      InitF="<-InitFChecks", **sh(64)), 900),
+            ("queue", "default", dict(MaxRecs=3, MaxCmds=3, Kinds="<-KindsQueue", Tools="<-ToolsQueueId",
+                                      InitF="<-InitFDefault", **sh(400)), 900),
+            ("ids", "checks", dict(MaxRecs=4, MaxCmds=3, Kinds="<-KindsId", Tools="<-ToolsId",
+                                   InitF="<-InitFChecks", **sh(128)), 900)]
 
 
 def attack_plan():
@@ -161,6 +214,9 @@ def attack_plan():
         ("unbounded next-transition index", "nogroup",
          dict(base, ChecksInGroup=False, Refilter=False, NextBounded=False, InitF="<-InitFNoGroup",
               Attack="NoPanic")),
+        ("TxIndex caches only what the scan found (a miss is scanned for again)", "checks",
+         dict(base, ChecksInGroup=True, Refilter=False, NextBounded=True, CacheMisses=True,
+              InitF="<-InitFChecks", Kinds="<-KindsId", Tools="<-ToolsId", Attack="TxIndex")),
     ]
 
 
@@ -180,16 +236,18 @@ def attacks(d):
 
     def one(j):
         label, initf, consts = j
-        c = dict(MC_BASE, Model="cursor", Emit=True)
+        c = dict(MC_BASE, Model="cursor", Emit=True, CacheMisses=False)
         c.update(consts)
         return tlcrun.run_tlc("MCDebugger", dict(spec="MCSpec", consts=c, invariants=["AttackInv"]),
                               workers=1, timeout=200)
-    with cf.ThreadPoolExecutor(max_workers=3) as ex:
+    with cf.ThreadPoolExecutor(max_workers=len(jobs)) as ex:
         res = list(ex.map(one, jobs))
     for k, ((label, initf, consts), r) in enumerate(zip(jobs, res)):
         if r["timed_out"] or [e for e in r["errors"] if "AttackInv" not in e]:
             raise Inconclusive("TLC attack run failed (%s): %s\n%s" % (label, r["errors"][:2], r["out"][-2000:]))
         seqs = parse_seqs(r["out"])
+        if not seqs and consts.get("CacheMisses"):
+            raise Inconclusive("model lost its sensitivity: a TxIndex cache that remembers misses breaks no formula")
         # shortest schedules first, a handful is enough
         seqs.sort(key=lambda s: (len(json.loads(s)), s))
         seqs = seqs[:12]
@@ -270,6 +328,21 @@ def classify(formula, lines):
             sig["cause"] = "other"
             sig["record"] = {k: rec.get(k) for k in ("queued", "auto", "check", "acc")}
             sig["filters"] = sorted(filters)
+    elif formula == "FilteredSound":
+        # the first listed record that an active filter names by one of its own flags
+        sig["cause"] = "other"
+        for idx in view.get("filtered", []):
+            rec = recs[idx] if idx < len(recs) else {}
+            by = [f for f, hit in (("FilterAutoTx", rec.get("auto")),
+                                   ("FilterAutoCanceledTx", rec.get("auto") and not rec.get("acc")),
+                                   ("FilterCanceledTx", not rec.get("acc", True)),
+                                   ("FilterQueuedTx", rec.get("queued")),
+                                   ("FilterChecks", rec.get("check"))) if hit and f in filters]
+            if by:
+                sig["cause"] = "listed-record-named-by-an-active-filter"
+                sig["hidden_by"] = by
+                sig["record"] = {k: rec.get(k) for k in ("queued", "auto", "check", "acc")}
+                break
     return sig
 
 
@@ -396,6 +469,57 @@ def distinct_nontrivial(files):
     return len(recs), len(cmds), imp_marker
 
 
+def matrix_stats(files):
+    """what the filter-matrix clients held: records by (auto, queued, canceled,
+    check) and queued mutations by the kind of their executor"""
+    kinds, execs = Counter(), Counter()
+    for fn in files:
+        for l in open(fn):
+            if '"ev":"final"' not in l[:300]:
+                continue
+            x = json.loads(l)
+            recs = x["recs"]
+            for i, r in enumerate(recs):
+                kinds["%s%s%s%s" % ("auto " if r["auto"] else "", "queued " if r["queued"] else "",
+                                    "canceled " if not r["acc"] else "", "check" if r["check"] else "")] += 1
+                if not r["queued"]:
+                    continue
+                ex = next((e for e in recs[i + 1:] if not e["queued"] and
+                           (e["qt"] == r["mqt"] or (e["tok"] > 0 and e["tok"] == r["tok"]))), None)
+                execs["%s mutation, %s" % ("auto" if r["auto"] else "manual",
+                                           "no executor" if ex is None else
+                                           "executor accepted" if ex["acc"] else "executor canceled")] += 1
+    return dict(record_kinds=len(kinds), queued_by_executor=dict(execs))
+
+
+def jump_stats(files):
+    """jumps by transition id: how many asked for a record not held yet, and how
+    many of those ids were asked for again after their record had arrived"""
+    early = again = held = 0
+    for fn in files:
+        pend = set()
+        n = 0
+        for l in open(fn):
+            if '"scrollid"' not in l and '"ev":"open"' not in l[:300] and '"ev":"ingest"' not in l[:300]:
+                continue
+            x = json.loads(l)
+            if x["ev"] == "open":
+                pend, n = set(), 0
+            elif x["ev"] == "ingest":
+                n = x["view"]["n"]
+            elif x["ev"] == "cmd" and x["cmd"]["op"] == "scrollid":
+                k = x["cmd"]["k"]
+                if 0 < k <= n:
+                    held += 1
+                    if k in pend:
+                        again += 1
+                        pend.discard(k)
+                elif k > n:
+                    early += 1
+                    pend.add(k)
+    return dict(of_ids_held=held, of_ids_still_to_come=early, asked_again_after_the_record_arrived=again)
+
+
 def check(tier):
     rep = Report(PROP, tier, "model_checking")
     sd = seed()
@@ -403,7 +527,7 @@ def check(tier):
     d = scratch(PROP)
     t0 = time.time()
     try:
-        with cf.ThreadPoolExecutor(max_workers=4) as ex:
+        with cf.ThreadPoolExecutor(max_workers=6) as ex:
             f_mc = ex.submit(run_mc, tier, rep)
             # ---- drivers
             n_stream, calls, cmds = (96, 8, 6) if tier == "quick" else (3000, 10, 8)
@@ -430,25 +554,41 @@ def check(tier):
                 meta[os.path.join(d, "lk.0.ndjson")] = dict(kind="lookup", extra=dict(seed=sd, n=n_lookup))
                 return s
 
-            def do_replay():
+            def do_emit():
                 tot = dict(cases=0, mismatches=0, broken=0, tlc_states=0, samples=[], attacks=[])
                 plan = []
-                for name, consts, to in emit_plan(tier, sd):
-                    seqf = os.path.join(d, "seq-%s.ndjson" % name)
-                    nseq, nst = emit(consts, to, seqf)
-                    if nseq == 0:
-                        raise Inconclusive("TLC emitted no behaviour for '%s'" % name)
-                    tot["tlc_states"] += nst
-                    plan.append((name, seqf, "rp-" + name, 8))
-                for k, (initf, path, label, nseq) in enumerate(attacks(d)):
+                ep = emit_plan(tier, sd)
+                # the TLC runs that produce behaviours / attack schedules, side by side
+                with cf.ThreadPoolExecutor(max_workers=len(ep) + 1) as ex2:
+                    f_at = ex2.submit(attacks, d)
+                    f_em = [ex2.submit(emit, consts, to, os.path.join(d, "seq-%s.ndjson" % label))
+                            for label, initf, consts, to in ep]
+                    for (label, initf, consts, to), fu in zip(ep, f_em):
+                        nseq, nst = fu.result()
+                        if nseq == 0:
+                            raise Inconclusive("TLC emitted no behaviour for '%s'" % label)
+                        tot["tlc_states"] += nst
+                        tot.setdefault("emitted", {})[label] = nseq
+                        plan.append((initf, os.path.join(d, "seq-%s.ndjson" % label), "rp-" + label, 8))
+                    at = f_at.result()
+                for k, (initf, path, label, nseq) in enumerate(at):
                     tot["attacks"].append(dict(protection_removed=label, schedules=nseq))
                     if nseq:
                         plan.append((initf, path, "at%d-%s" % (k, initf), 1))
-                for name, seqf, pref, nw in plan:
-                    attack = pref.startswith("at")
+                return tot, plan
+
+            def do_replay(tot, plan):
+                def one(p):
+                    name, seqf, pref, nw = p
                     s = driver(binary, ["-mode", "replay", "-in", seqf, "-initf", name, "-workers", str(nw),
                                         "-out", os.path.join(d, pref), "-tmp", d])
-                    for fn in merge(sorted(glob.glob(os.path.join(d, pref + ".*.ndjson"))), 4):
+                    return p, s
+                # two plans side by side (a debugger mostly waits for its own timers)
+                with cf.ThreadPoolExecutor(max_workers=2) as ex3:
+                    done = list(ex3.map(one, plan))
+                for (name, seqf, pref, nw), s in done:
+                    attack = pref.startswith("at")
+                    for fn in merge(sorted(glob.glob(os.path.join(d, pref + ".*.ndjson"))), 3 if tier == "quick" else 4):
                         meta[fn] = dict(kind="kinds", extra=dict(initf=name))
                     tot["cases"] += s["cases"]
                     tot["broken"] += s.get("broken", 0)
@@ -465,12 +605,26 @@ def check(tier):
                         tot["samples"] += s.get("mismatch_samples", [])[:3]
                 return tot
 
+            def do_filters():
+                # quick: the sets of filter states are dealt to 3 cases, each set is walked through
+                # by 2 cases (different record orders / batches); thorough: every case walks all
+                n, parts, extra = (6, 3, 0) if tier == "quick" else (48, 1, 6)
+                s = driver(binary, ["-mode", "filters", "-n", str(n), "-parts", str(parts), "-extra", str(extra),
+                                    "-workers", "6", "-seed", str(sd), "-out", os.path.join(d, "fm"), "-tmp", d])
+                for fn in merge(sorted(glob.glob(os.path.join(d, "fm.*.ndjson"))), 3 if tier == "quick" else 12):
+                    meta[fn] = dict(kind="matrix", extra=dict(seed=sd, n=n, parts=parts, extra=extra))
+                return s
+
             phase = {}
+            f_em = ex.submit(do_emit)
             f_st, f_tcp, f_lk = ex.submit(do_stream), ex.submit(do_tcp), ex.submit(do_lookup)
-            s_st, s_tcp, s_lk = f_st.result(), f_tcp.result(), f_lk.result()
+            f_fm = ex.submit(do_filters)
+            s_st, s_tcp, s_lk, s_fm = f_st.result(), f_tcp.result(), f_lk.result(), f_fm.result()
             phase["drivers"] = round(time.time() - t0, 1)
-            s_rp = do_replay()
-            phase["emit+replay"] = round(time.time() - t0, 1)
+            tot, plan = f_em.result()
+            phase["emit"] = round(time.time() - t0, 1)
+            s_rp = do_replay(tot, plan)
+            phase["replay"] = round(time.time() - t0, 1)
             f_mc.result()
             phase["mc"] = round(time.time() - t0, 1)
         files = sorted(meta)
@@ -483,15 +637,20 @@ def check(tier):
         nrec, ncmd, marker = distinct_nontrivial([f for f in files if meta[f]["kind"] != "lookup"])
         cnt = stats["cnt"]
         rep.coverage.update(
-            traces_validated_against_impl=s_st["cases"] + s_tcp["cases"] + s_rp["cases"] + s_lk["cases"],
+            traces_validated_against_impl=s_st["cases"] + s_tcp["cases"] + s_rp["cases"] + s_lk["cases"] + s_fm["cases"],
             evaluations=stats["lines"],
             distinct_nontrivial=nrec + ncmd,
             distinct_nontrivial_records=nrec, distinct_effective_commands=ncmd,
             trace_lines=stats["lines"], events=dict(cnt),
             real_streams=s_st["cases"], tcp_clients=s_tcp["cases"], lookup_lists=s_lk["cases"],
-            tlc_generated_behaviours=s_rp["cases"], behaviours_that_broke_the_debugger=s_rp["broken"] + s_st.get("broken", 0),
+            growing_stores=s_lk.get("growing", 0),
+            filter_matrix_cases=s_fm["cases"], filter_sets_walked=s_fm["filter_sets_visited"],
+            filter_matrix=matrix_stats([f for f in files if meta[f]["kind"] == "matrix"]),
+            jumps_by_id=jump_stats(files),
+            tlc_generated_behaviours=s_rp["cases"], tlc_emitted=s_rp.get("emitted", {}),
+            behaviours_that_broke_the_debugger=s_rp["broken"] + s_st.get("broken", 0) + s_fm.get("broken", 0),
             attack_schedules=s_rp["attacks"],
-            cases_retried_after_a_stall=s_rp.get("retried", 0) + s_st.get("retried", 0),
+            cases_retried_after_a_stall=s_rp.get("retried", 0) + s_st.get("retried", 0) + s_fm.get("retried", 0),
             fwd_back_pairs=cnt.get("fwdback", 0), imports=cnt.get("import", 0),
             import_touched_marker_differences=marker,
             violations_by_formula=dict(stats["viol"]), violations_by_signature=dict(stats["sigs"]),
@@ -502,13 +661,19 @@ def check(tier):
                  "tail commands in between, or sent by several machines concurrently over loopback TCP; "
                  "(b) record lists of length 0..16 as a machine produces them (and arbitrary ones, judged "
                  "only where no monotonicity is needed); (c) every behaviour of the cursor model within the "
-                 "emission constants (sharded by seed). One evaluation = one validated ndjson line; distinct "
+                 "emission constants (sharded by seed), among them jumps by transition id to records held / "
+                 "still to come; (b') one record list that grows step by step with TxIndex / TxAtQueueTick / "
+                 "TxAtMachTime asked for the same key before and after a growth (and ClearCache); in (a) "
+                 "ScrollToTx{TxId} is sent for ids of later batches and again after every later batch; (d) a "
+                 "client holding every kind of record (auto x queued x canceled x check, empty, health; "
+                 "executors accepted / canceled / missing) and a walk of ToggleTool commands through all "
+                 "192 reachable sets of filter states. One evaluation = one validated ndjson line; distinct "
                  "non-trivial = distinct records that changed a tick or are queued/canceled/auto/check, with "
                  "their derived data, plus distinct (view, command) pairs that changed the cursor or the "
                  "filtered view",
             samples=sample_lines(files) or [dict(note="no sample")],
             formulas=["RecordFaithful", "DerivedConsistent", "LookupEqualsScan", "FwdBackIdentity", "FilterSound",
-                      "ExportImportIdentity", "NoPanic"],
+                      "FilteredSound", "ExportImportIdentity", "NoPanic"],
             exhaustive=False)
         rep.notes.append("StatesTouched of the live path carries a -1 entry for the global Any handlers, the "
                          "import path does not (%d imported clients differ only by that marker); compared as "
@@ -519,6 +684,12 @@ def check(tier):
             "the Result of Add calls on the debugger machine is not used (its background goroutines share the queue)",
             "FilterSound is required when the debugger selects a transition (cursor moved / filter toggled), "
             "not while the cursor rests on a record that later telemetry re-classifies",
+            "FilteredSound (what MsgTxsFiltered lists matches the active filters) is required on ALL the records "
+            "held right after a filter toggle re-filtered, and at every other moment on the records up to the "
+            "listed one (the code filters an ingested record against the records received so far)",
+            "a jump by transition id must land on the transition a scan finds only when the ScrollToTx handler ran "
+            "and that transition can be shown (no filter state on, or the filtered view lists it); a refused jump "
+            "is judged by what Client.TxIndex answers for the id right after the command",
             "FwdBackIdentity: Fwd(1) that moved, then Back(1); any amount when no filter is active",
             "GC of old messages (GcMsgs) is disabled by a high --max-mem; groups are never selected"]
     finally:
@@ -547,6 +718,12 @@ def replay(path):
                             str(obj["cmds"]), "-seed", str(obj["seed"]), "-only", str(idx),
                             "-out", os.path.join(d, "st"), "-tmp", d])
             meta[os.path.join(d, "st.0.ndjson")] = dict(kind="stream", extra={k: obj[k] for k in ("seed", "n", "calls", "cmds")})
+        elif kind == "matrix":
+            idx = int(obj["label"].split("-")[-1])
+            driver(binary, ["-mode", "filters", "-n", str(obj["n"]), "-parts", str(obj["parts"]), "-extra",
+                            str(obj["extra"]), "-seed", str(obj["seed"]), "-only", str(idx),
+                            "-out", os.path.join(d, "fm"), "-tmp", d])
+            meta[os.path.join(d, "fm.0.ndjson")] = dict(kind="matrix", extra={k: obj[k] for k in ("seed", "n", "parts", "extra")})
         elif kind == "tcp":
             driver(binary, ["-mode", "tcp", "-n", str(obj["n"]), "-clients", "3", "-calls", str(obj["calls"]),
                             "-seed", str(obj["seed"]), "-out", os.path.join(d, "tcp"), "-tmp", d])
